@@ -317,12 +317,33 @@ def real_events(run: Run, count: int, toy_groups: list[dict[str, Any]]) -> list[
             c = cv(ec)
             arms = [True, False] if (ec == secp256k1 and start) else [start]
             reps = count if name in ("secp256k1",) else max(2, count // (6 if ec.nlen > 300 else 3))
+            # on a curve of cofactor above one the abscissa of the nonce point may be r + j n for j up to the cofactor: digests are looked for (with the library's own
+            # nonce function, as a search only) whose nonce point falls in each class j, and for j >= 2 also ones where neither r nor r + n is an abscissa
+            forced: list[tuple[int, bytes]] = []
+            if ec.cofactor > 1 and name.startswith("secp"):
+                seen_cls: set[tuple[int, bool]] = set()
+                for t_ in range(400):
+                    q_ = 1 + t_ % 5
+                    h_ = hashlib.sha256(b"cofactor" + bytes([t_ % 256, t_ // 256])).digest()
+                    K_ = mult(rfc6979_nonce_(h_, q_, ec, hashlib.sha256), ec=ec)
+                    j_ = K_[0] // ec.n
+                    r_ = K_[0] % ec.n
+
+                    def is_x(x_: int) -> bool:
+                        return x_ < ec.p and pow((x_**3 + ec._a * x_ + ec._b) % ec.p, (ec.p - 1) // 2, ec.p) in (0, 1)
+
+                    cls = (j_, is_x(r_) or is_x(r_ + ec.n))
+                    if cls not in seen_cls:
+                        seen_cls.add(cls)
+                        forced.append((q_, h_))
             for arm in arms:
                 if ec == secp256k1 and start:
                     set_libsecp256k1_serving(serving=arm)
                 tag = f"{name}|{'bindings' if (arm and ec == secp256k1) else 'python'}"
-                for i in range(reps):
+                for i in range(reps + len(forced)):
                     hname = "sha256" if (ec == secp256k1 and i % 2 == 0) else list(HFS)[i % 3]      # (every hash length on every curve: shorter than, as long as, longer than the order)
+                    if i >= reps:
+                        hname = "sha256"
                     hf = HFS[hname]
                     q = rnd.choice([1, 2, ec.n - 1, rnd.randrange(1, ec.n), rnd.randrange(1, ec.n)])
                     h = hf(rnd.randbytes(rnd.randrange(0, 80))).digest()
@@ -330,6 +351,8 @@ def real_events(run: Run, count: int, toy_groups: list[dict[str, Any]]) -> list[
                         h = bytes(len(h))                       # zero digest: challenge 0
                     if i % 7 == 5:
                         h = b"\xff" * len(h)
+                    if i >= reps:
+                        q, h = forced[i - reps]
                     base = {"c": c, "hf": hname, "h": h.hex(), "tag": tag}
                     evs.append({**base, "op": "chal", "out": nat(challenge_(h, ec, hf))})
                     extra = b"" if i % 3 else rnd.randbytes(32)
